@@ -7,12 +7,15 @@ from contracts.common import Posterior, KINDS, make_sampler, stored_points, quie
 
 
 def _limits(vc, kind, d, rng):
-    mode = vc.choice("limits", ["none", "box", "box_far", "box_tiny"])
+    mode = vc.choice("limits", ["none", "box", "box_far", "box_tiny", "box_negative"])
     if mode == "none":
         return None
     centre = rng.normal(size=d) * 0.5 + 1.0
     if mode == "box":
         w = np.exp(rng.uniform(-1, 1.5, size=d))
+    elif mode == "box_negative":          # every coordinate negative (relative steps, abs() and sign handling)
+        centre = -(np.abs(centre) + 3.0) * 10 ** rng.uniform(0, 3)
+        w = np.exp(rng.uniform(-1, 1.0, size=d))
     elif mode == "box_far":
         centre = centre + 1e6
         w = np.exp(rng.uniform(-1, 1.5, size=d))
